@@ -8,8 +8,8 @@ from harness import worldcorr as WC
 from props import _worldfam as F
 
 PID = 'C02'
-GENERATORS = ['consts', 'affects_table']
-LEAN_TARGETS = ['EosProofs.Props.C02', 'EosProofs.Lemmas.AffectsTable']
+GENERATORS = ['consts', 'affects_table', 'resist_table']
+LEAN_TARGETS = ['EosProofs.Props.C02', 'EosProofs.Lemmas.AffectsTable', 'EosProofs.Lemmas.ResistTable']
 DRIVERS = ['drv_world']
 TRUSTED = F.WORLD_TRUSTED
 RULE = ('stream 1: random modification multisets (all 10 operators + unknown ones, aggregate min/max groups with ties, '
@@ -29,7 +29,10 @@ CLAUSES = {
         'class x filter x domain x argument x affectee class x relation, and the projected twin), proved equal to the spec '
         'case by case for every modifier the library\'s own validation (_valid, regenerated per row) accepts: '
         'affects_table_matches_spec, affects_table_matches_spec_projected, affects_table_incremental_matches_spec (all rows), '
-        'affects_table_complete; rows with rejected modifiers are pinned by affects_table_invalid_rows_observed'),
+        'affects_table_complete; rows with rejected modifiers are pinned by affects_table_invalid_rows_observed; the '
+        'resistance factor and its carrier (resistOf) and gather itself are tied by the regenerated table EosGen.ResistTable '
+        '(projector class x resistance mode x target x filter x every item; every type has its own resistance value): '
+        'resist_table_matches_spec, resist_table_gather_matches, resist_table_complete'),
     'an attribute without base and default value is absent': 'proved (absent_without_base) + correspondence',
 }
 LEVEL_TEXT = ('Lean theorems about the exact-rational calculation function (order independence, operator order, '
@@ -37,7 +40,8 @@ LEVEL_TEXT = ('Lean theorems about the exact-rational calculation function (orde
               'eos/calculator/map.py on every run; the function itself is tied to the code by a direct differential '
               'stream into MutableAttrMap.__calculate and by from-scratch worlds; which items a modifier selects '
               '(affectsLocal / affectsProjected) is tied by a complete decision table regenerated on every run by running '
-              'the real calculator on designed worlds (45 484 cases) and checked equal to the spec by kernel evaluation.')
+              'the real calculator on designed worlds (45 484 cases) and checked equal to the spec by kernel evaluation; '
+              'likewise the resistance factor and its carrier (resistOf, gather; 8 050 cases).')
 LEVEL_NOTE = 'Trusted: kernel + std axioms; AST translation of the 10 normalisation lambdas; float arithmetic not modelled.'
 TECHNIQUE = ('Lean 4 algebraic proofs over regenerated constants + regenerated selection table (decide +kernel) + '
              'differential correspondence of the calculation core')
@@ -135,6 +139,7 @@ def _ref_eval(case):
 def oracle(ctx):
     rep = ctx.report
     _selection(ctx, rep)
+    _resistance(ctx, rep)
     rnd = ctx.sub_rnd('oracle')
     vals = [0.5, 2, 3, -1, 10, 1.5, 50, 0.25, 4, 100]
     for _ in range(ctx.n(600, 10000)):
@@ -203,6 +208,34 @@ def _selection(ctx, rep):
                     rep.violate(bad[1], bad[0])
 
 
+def _resistance(ctx, rep):
+    """The regenerated resistance table against the Python re-statement of affectsProjected + resistOf
+    (harness/affects_ref.py); the proof obligation is the Lean theorem over the same table, this names the case."""
+    from gen import affects_table as AT
+    from gen import resist_table as RT
+    from harness import affects_ref as AR
+    for (kp, mode, ti, snap, eff, aid, tid, rows) in (RT.LAST or RT.tables()):
+        for m, valid, scr, inc in rows:
+            rep.case(sig=('resist', kp, mode, ti, m[:3]), kind='resist-table-row')
+            rep.dist['resist_items'] += len(snap[1])
+            for x in snap[1]:
+                want = AR.resist_expected(snap, eff, aid, tid, m, x)
+                for how, obs in (('built from scratch', dict(scr)), ('target set after all items were read', dict(inc))):
+                    got = obs.get(x[0])
+                    if got != want:
+                        case = {'resist_table': [kp, mode, ti], 'modifier': list(m[:3]), 'modifier_valid': valid,
+                                'item': list(x), 'observation': how, 'factor_applied_by_code': str(got),
+                                'factor_specified': str(want), 'oracle': 'python re-statement of Eos.World.resistOf'}
+                        rep.violate('designed world (resistance table, projector %s, resistance attribute %s, target %d, '
+                                    '%s): item %r (kind %s) gets resistance factor %s (None = not modified) from modifier '
+                                    'filter=%d arg=%r, the specification says %s'
+                                    % (AT.KINDS[kp], mode, tid, how, x[0], AT.KINDS[x[1]], got, m[0], m[2], want), case)
+                        break
+                else:
+                    continue
+                break
+
+
 def search(ctx, broken):
     ctx.tier = 'thorough'
     oracle(ctx)
@@ -222,4 +255,15 @@ def replay(path):
         bad = _selection_check(case['affects_table'], case['class'], case['world'], snap, aid, tid, m, valid, ids, inc)
         print('re-executed:', bad[1] if bad else 'the real code agrees with the specification on this world')
         return 1 if bad else 0
+    if isinstance(case, dict) and 'resist_table' in case:
+        from gen import resist_table as RT
+        from harness import affects_ref as AR
+        print(json.dumps(v, indent=1)[:3000])
+        kp, mode, ti = case['resist_table']
+        snap, eff, aid, tid, m, valid, scr, inc = RT.observe(kp, mode, ti, tuple(case['modifier']))
+        x = [i for i in snap[1] if i[0] == case['item'][0]][0]
+        want = AR.resist_expected(snap, eff, aid, tid, m, x)
+        got = [dict(scr).get(x[0]), dict(inc).get(x[0])]
+        print('re-executed: factor applied by the code (from scratch, incremental) = %s, specified = %s' % (got, want))
+        return 1 if any(g != want for g in got) else 0
     return F.generic_replay(PID, path)
